@@ -289,7 +289,7 @@ def run(facts, res):
                                   "%s accumulates the change records of a block in a collection keyed by a projection of the record (%s): two records that "
                                   "agree on it (two revisions of one object with the same index: a committed resolution of equally long branches) collapse "
                                   "into one and the reopened replica never learns the other" % (m_.path, fmt(key_t, 5)), m_.loc(t.line))
-    res.floor("K2", "sites where the loader accumulates a parsed change record", n_rec, 2)
+    res.floor("K2", "sites where the loader accumulates a parsed change record", n_rec, 1)
     # positions
     wpos = {}
     for n, els, ln, bi in arr:
@@ -614,9 +614,22 @@ def _else_rejects(r, lc, facts):
         else:
             entries.append(t.j["otherwise"])     # `match len { 2 => .., 3 => .., _ => .. }`
     for tb in entries:
-        for _ in range(14):
+        # (after helper inlining the rejection runs through the spliced `?` chain: an Err built on the way and handed on by from_residual
+        # down to the return counts as well)
+        saw_err = False
+        for _ in range(90):
             if tb in errs:
                 return True
+            blk = r.blocks[tb]
+            for st in blk.stmts:
+                if st.kind == "assign" and st.rv.kind == "agg" and st.rv.j.get("variant") == "Err":
+                    saw_err = True
+            if blk.term.kind == "call" and blk.term.callee is not None and blk.term.callee.name in ("from_residual", "format_err", "from_error"):
+                saw_err = True
+            if blk.term.kind == "return":
+                if saw_err:
+                    return True
+                break
             ss = cfg.block_succs(tb)
             if len(ss) != 1:
                 break
